@@ -626,14 +626,24 @@ Definition stored_settings (c : ctor) (s : sval) : jv :=
   | CBillingModel, JObj kvs | CBillingWeighted, JObj kvs => JObj (set_key "developer_mode" (JBool true) kvs)
   | _, d => d
   end.
-(* from_dict : cls(settings=doc) — DailyModel.from_dict never passes `model=` (daily/model.py:353-354) *)
+(* from_dict : cls(settings=doc).  DailyModel.from_dict (daily/model.py:356-364, since /repo 394645be): the current
+   settings class first; when that raises a pydantic.ValidationError (field error, lock, cross-field rule) and the class
+   is DailyModel itself, once more as DailyModel(model="legacy", settings=doc) — the lock still runs, against the legacy
+   defaults.  Any other exception (TypeError ...) propagates. *)
+Definition is_validation_error (r : reason) : bool :=
+  match r with RField | RDeveloper | RCross => true | RCrash | RType => false end.
+Definition reload_ctor (reg : registry) (c : ctor) (kvs : list (string * jv)) : ctor :=
+  match c with
+  | CDailyModel _ =>
+      match construct reg (CDailyModel "current") (InDict kvs) with
+      | Reject r => if is_validation_error r then CDailyModel "legacy" else CDailyModel "current"
+      | Accept _ => CDailyModel "current"
+      end
+  | _ => c
+  end.
 Definition reload (reg : registry) (c : ctor) (doc : jv) : result sval :=
   match doc with
-  | JObj kvs =>
-      match c with
-      | CDailyModel _ => construct reg (CDailyModel "current") (InDict kvs)
-      | _ => construct reg c (InDict kvs)
-      end
+  | JObj kvs => construct reg (reload_ctor reg c kvs) (InDict kvs)
   | _ => Reject RCrash
   end.
 
@@ -752,20 +762,15 @@ Definition wf_children (ch : list stree) : bool := nodupb (map tname ch) && fora
 (* ------------------------------------------------------------------ build -> store -> reload on the enumerated overrides *)
 Definition with_dev (dm : bool) (kvs : list (string * jv)) : list (string * jv) :=
   if dm then ("developer_mode", JBool true) :: ("silent_developer_mode", JBool true) :: kvs else kvs.
-Inductive reload_shape := SameRecord | LockedOutUnlessDev.
-(* SameRecord: the record reloads and the reloaded settings dump to the record.
-   LockedOutUnlessDev (what DailyModel(model="legacy") does today): it does so only for a model built in developer
-   mode; any other record is refused by the lock of the current defaults. *)
-Definition reload_ok (reg : registry) (shape : reload_shape) (c : ctor) (kvs : list (string * jv)) : bool :=
+(* the record reloads and the reloaded settings dump to the record *)
+Definition reload_ok (reg : registry) (c : ctor) (kvs : list (string * jv)) : bool :=
   match construct reg c (InDict kvs) with
   | Reject _ => true
   | Accept s =>
       let doc := stored_settings c s in
-      match reload reg c doc, shape with
-      | Accept s', SameRecord => jv_eqb (dump s') doc
-      | Accept s', LockedOutUnlessDev => jv_eqb (dump s') doc && (match developer_mode_of s with Some true => true | _ => false end)
-      | Reject RDeveloper, LockedOutUnlessDev => match developer_mode_of s with Some false => true | _ => false end
-      | Reject _, _ => false
+      match reload reg c doc with
+      | Accept s' => jv_eqb (dump s') doc
+      | Reject _ => false
       end
   end.
 (* the alternatives of alts_of, at most four members of a long enum *)
@@ -774,7 +779,7 @@ Definition alts_light (sib : list stree) (l : leaf) : list jv :=
   | BEnum vals => (map JStr (firstn 4 vals) ++ [JNull; JStr "no such value"])%list
   | _ => alts_of sib l
   end.
-Definition all_reloads_ok (reg : registry) (shape : reload_shape) (c : ctor) (t : stree) : bool :=
-  forallb (fun x => forallb (fun v => reload_ok reg shape c (with_dev (ldev (snd (fst x))) (override (fst (fst x)) v)))
+Definition all_reloads_ok (reg : registry) (c : ctor) (t : stree) : bool :=
+  forallb (fun x => forallb (fun v => reload_ok reg c (with_dev (ldev (snd (fst x))) (override (fst (fst x)) v)))
                             (alts_light (snd x) (snd (fst x))))
           (leaves_sib_of_root t).
